@@ -52,12 +52,14 @@ Lemma finish_multi : forall d i sv F tos ccs mime b kids P E A,
                (FMulti (Tof d i sv F tos ccs ++ [fld h_ctype (mp_ctype mime b)]) kids)) = Ok st /\
     project_parsed st = mkproj (Some sv) [F] tos ccs (Some d)
            (map (fun p => (p_ct p, p_cs p, p_content p)) P)
-           (map (fun f => (fo_name f, fo_bytes f)) A) (map (fun f => (fo_name f, fo_bytes f)) E).
+           (map (fun f => (fo_name f, fo_bytes f)) A) (map (fun f => (fo_name f, fo_bytes f)) E) /\
+    Eml.m_parts st = P /\ m_embs st = E /\ m_atts st = A /\ Eml.m_gen st = parsed_gen d i sv /\
+    m_addrs st = mka [F] tos ccs [] /\ Eml.m_charset st = charset_utf8 /\ m_enc st = enc_qp.
 Proof.
   intros d i sv F tos ccs mime b kids P E A [H1 H2 H3 H4 H5 H6 H7 H8 H9] Hm Hb Hrun.
   destruct (mp_extra mime b Hm Hb) as (Hl & H2c).
   destruct (headers_top pa pl pd d i sv F tos ccs _ st_init H1 H2 H3 H4 H5 H6 H7 H8 H9 Hl H2c eq_refl)
-    as (sth & Hh & _ & _ & Hp0 & Ha0 & He0 & Hadr & Hsub & Hdat).
+    as (sth & Hh & Hc0 & Hn0 & Hp0 & Ha0 & He0 & Hadr & Hsub & Hdat & Hgen).
   unfold parse_eml_fixed, parse_eml, top_of_fnode.
   cbn [t_msg_ok negb t_from t_to t_cc t_bcc t_date t_ent fhdr].
   change (e_hdr (entity_of_fnode false (FMulti (Tof d i sv F tos ccs ++ [fld h_ctype (mp_ctype mime b)]) kids)))
@@ -65,7 +67,8 @@ Proof.
   unfold Tof in *. rewrite Hh. cbn [bind].
   rewrite body_top_multi; [|apply (Tof_lacks d i sv F tos ccs)|assumption|assumption].
   rewrite Hrun. eexists. split; [reflexivity|].
-  apply (project_final (Writer.mkmsg [] 0%N [] [] None [] [] [] [] [] [] [])); assumption.
+  split; [apply (project_final (Writer.mkmsg [] 0%N [] [] None [] [] [] [] [] [] [])); assumption|].
+  destruct sth as [cs0 en0 ps0 at0 em0 g0 ad0]. cbn in *. subst. repeat split; reflexivity.
 Qed.
 
 Lemma finish_leaf : forall d i sv F tos ccs m p,
@@ -73,20 +76,47 @@ Lemma finish_leaf : forall d i sv F tos ccs m p,
   exists st, parse_eml_fixed (top_of_fnode pa pl pd
                (FLeaf (Tof d i sv F tos ccs ++ cpart_fields m p) (encode_body (Writer.p_enc p) (p_prod p)))) = Ok st /\
     project_parsed st = mkproj (Some sv) [F] tos ccs (Some d)
-           (map (fun p => (p_ct p, p_cs p, p_content p)) [part_obs m p]) [] [].
+           (map (fun p => (p_ct p, p_cs p, p_content p)) [part_obs m p]) [] [] /\
+    Eml.m_parts st = [part_obs m p] /\ m_embs st = [] /\ m_atts st = [] /\ Eml.m_gen st = parsed_gen d i sv /\
+    m_addrs st = mka [F] tos ccs [] /\ Eml.m_charset st = charset_utf8 /\ m_enc st = enc_name (Writer.p_enc p).
 Proof.
   intros d i sv F tos ccs m p [H1 H2 H3 H4 H5 H6 H7 H8 H9] Hm Hp.
   destruct (leaf_headers p m Hm Hp) as (Hl & st2 & H2c & Hg2 & Hp2 & Ha2 & He2).
   destruct (headers_top pa pl pd d i sv F tos ccs _ st2 H1 H2 H3 H4 H5 H6 H7 H8 H9 Hl H2c Hg2)
-    as (sth & Hh & _ & _ & Hp0 & Ha0 & He0 & Hadr & Hsub & Hdat).
+    as (sth & Hh & _ & _ & Hp0 & Ha0 & He0 & Hadr & Hsub & Hdat & Hgen).
   unfold parse_eml_fixed, parse_eml, top_of_fnode.
   cbn [t_msg_ok negb t_from t_to t_cc t_bcc t_date t_ent fhdr].
   rewrite entity_leaf_top. cbn [e_hdr].
   unfold Tof in *. rewrite Hh. cbn [bind].
   destruct (body_top_leaf _ p m sth Hm Hp (proj1 (Tof_lacks d i sv F tos ccs)) (proj2 (Tof_lacks d i sv F tos ccs)))
-    as (st' & Hb & Bp & Ba & Be & Bg & Bad).
+    as (st' & Hb & Bp & Ba & Be & Bg & Bad & Bcs & Ben).
   unfold Tof in Hb. rewrite entity_leaf_top in Hb. rewrite Hb. eexists. split; [reflexivity|].
-  unfold project_parsed. rewrite Bp, Ba, Be, Bg, Bad, Hadr, Hsub, Hdat, Ha0, He0, Ha2, He2. reflexivity.
+  split; [unfold project_parsed; rewrite Bp, Ba, Be, Bg, Bad, Hadr, Hsub, Hdat, Ha0, He0, Ha2, He2; reflexivity|].
+  rewrite Bp, Ba, Be, Bg, Bad, Ha0, He0, Ha2, He2. repeat split; assumption.
+Qed.
+
+Lemma parsed_as_intro : forall d i m st sv F tos ccs,
+  Writer.m_gen m = [(hdr_subject, [sv])] -> m_from m = Some F ->
+  m_addr m = (hdr_to, tos) :: match ccs with [] => [] | _ => [(hdr_cc, ccs)] end ->
+  Eml.m_parts st = map (part_obs m) (Writer.m_parts m) ->
+  m_embs st = map (file_obs false) (m_embeds m) -> m_atts st = map (file_obs true) (m_attach m) ->
+  Eml.m_gen st = parsed_gen d i sv -> m_addrs st = mka [F] tos ccs [] ->
+  Eml.m_charset st = charset_utf8 -> m_enc st = expected_enc m ->
+  parsed_as d i m st.
+Proof.
+  intros d i m st sv F tos ccs Hg Hf Ha Hp He Hat Hgen Had Hcs Hen. unfold parsed_as.
+  repeat split; try assumption.
+  - exists sv. split; [unfold gen_value; now rewrite Hg|assumption].
+  - rewrite Had, Hf. unfold addr_list. rewrite Ha. destruct ccs; reflexivity.
+Qed.
+
+Lemma expected_enc_multi : forall m,
+  (m_attach m <> [] \/ m_embeds m <> [] \/ Nat.leb 2 (length (Writer.m_parts m)) = true) -> expected_enc m = enc_qp.
+Proof.
+  intros m H. unfold expected_enc.
+  destruct (Writer.m_parts m) as [|p [|p2 pr]]; try reflexivity.
+  destruct (m_embeds m); [|reflexivity]. destruct (m_attach m); [|reflexivity].
+  destruct H as [H|[H|H]]; [congruence|congruence|discriminate].
 Qed.
 
 Theorem parse_ctree : forall d i rb m,
@@ -94,7 +124,7 @@ Theorem parse_ctree : forall d i rb m,
   in_feature_set m = true -> good_value d = true -> good_value i = true ->
   oracles_ok pa pl pd d m -> boundaries_ok z = true ->
   exists st, parse_eml_fixed (top_of_fnode pa pl pd (ctree z)) = Ok st /\
-             project_parsed st = project_built d m.
+             project_parsed st = project_built d m /\ parsed_as d i m st.
 Proof.
   intros d i rb m z Hfs Hd Hi (HoF & HoL & HoD) Hbd.
   destruct (feature_facts m Hfs) as (Hcs & (sv & Hgen & Hsv) & Hpre & (F & Hfrom & HF) &
@@ -135,27 +165,49 @@ Proof.
   destruct cm eqn:Ecm.
   - (* multipart/mixed *)
     cbn [cnest fprepend].
-    apply (finish_multi d i sv F tos ccs mime_mixed); [assumption|now left|now apply Htm|].
-    intros st. now apply run_mix_kids.
+    destruct (finish_multi d i sv F tos ccs mime_mixed (m_bmixed (z_msg z)) _ _ _ _ HH (or_introl eq_refl) (Htm eq_refl)
+                (fun st => run_mix_kids ca cr (z_msg z) (m_wenc m) _ _ _ _ _ st Hzcs Hpo Hem Hat Hta Htr))
+      as (st & Hp & Hj & Fp & Fe & Fa & Fg & Fad & Fcs & Fen).
+    exists st. split; [exact Hp|]. split; [exact Hj|].
+    apply (parsed_as_intro d i m st sv F tos ccs); try assumption.
+    rewrite Fen. symmetry. apply expected_enc_multi. left. intros E. subst cm. rewrite E in Ecm. discriminate.
   - assert (Eat : m_attach m = []) by (destruct (m_attach m); [reflexivity|discriminate]).
     rewrite Eat. cbn [map cnest]. rewrite app_nil_r.
     destruct cr eqn:Ecr.
     + (* multipart/related *)
       cbn [cnest fprepend].
-      apply (finish_multi d i sv F tos ccs mime_related _ _ _ _ []); [assumption|right; now left|now apply Htr|].
-      intros st. rewrite steps_app, run_parts_app, run_alt_level by assumption. cbn [bind].
-      rewrite (run_file_leaves (m_wenc m) false _ _ Hem). now rewrite add_atts_nil.
+      assert (Hrun : forall st, run_parts (steps (cnest ca mime_alternative (m_balt (z_msg z)) (map (cpart_leaf (z_msg z)) (Writer.m_parts m))
+                       ++ map cfile_leaf (map (file_headers (m_wenc m) false) (m_embeds m)))) true st
+              = Ok (add_atts (add_embs (add_parts st (map (part_obs (z_msg z)) (Writer.m_parts m))) (map (file_obs false) (m_embeds m))) [])).
+      { intros st. rewrite steps_app, run_parts_app, run_alt_level by assumption. cbn [bind].
+        rewrite (run_file_leaves (m_wenc m) false _ _ Hem). now rewrite add_atts_nil. }
+      destruct (finish_multi d i sv F tos ccs mime_related (m_brelated (z_msg z)) _ _ _ _ HH (or_intror (or_introl eq_refl)) (Htr eq_refl) Hrun)
+        as (st & Hp & Hj & Fp & Fe & Fa & Fg & Fad & Fcs & Fen).
+      exists st. split; [exact Hp|]. split; [exact Hj|].
+      apply (parsed_as_intro d i m st sv F tos ccs); try assumption; [now rewrite Eat|].
+      rewrite Fen. symmetry. apply expected_enc_multi. right. left. intros E. subst cr. rewrite E in Ecr. discriminate.
     + assert (Eem : m_embeds m = []) by (destruct (m_embeds m); [reflexivity|discriminate]).
       rewrite Eem. cbn [map cnest]. rewrite app_nil_r.
       destruct ca eqn:Eca.
       * (* multipart/alternative *)
         cbn [cnest fprepend].
-        apply (finish_multi d i sv F tos ccs mime_alternative _ _ _ [] []); [assumption|right; now right|now apply Hta|].
-        intros st. rewrite (run_part_leaves (z_msg z) _ st Hzcs Hpo). now rewrite add_embs_nil, add_atts_nil.
+        assert (Hrun : forall st, run_parts (steps (map (cpart_leaf (z_msg z)) (Writer.m_parts m))) true st
+                = Ok (add_atts (add_embs (add_parts st (map (part_obs (z_msg z)) (Writer.m_parts m))) []) [])).
+        { intros st. rewrite (run_part_leaves (z_msg z) _ st Hzcs Hpo). now rewrite add_embs_nil, add_atts_nil. }
+        destruct (finish_multi d i sv F tos ccs mime_alternative (m_balt (z_msg z)) _ _ _ _ HH (or_intror (or_intror eq_refl)) (Hta eq_refl) Hrun)
+          as (st & Hp & Hj & Fp & Fe & Fa & Fg & Fad & Fcs & Fen).
+        exists st. split; [exact Hp|]. split; [exact Hj|].
+        apply (parsed_as_intro d i m st sv F tos ccs); try assumption; [now rewrite Eem|now rewrite Eat|].
+        rewrite Fen. symmetry. apply expected_enc_multi. right. right. exact Eca.
       * (* one text part *)
-        destruct (Writer.m_parts m) as [|p [|p2 pr]]; [congruence| |discriminate].
+        destruct (Writer.m_parts m) as [|p [|p2 pr]] eqn:Epm; [congruence| |discriminate].
         cbn [map cnest fprepend cpart_leaf forallb] in *. apply andb_true_iff in Hpo. destruct Hpo as [Hp _].
-        exact (finish_leaf d i sv F tos ccs (z_msg z) p HH Hzcs Hp).
+        destruct (finish_leaf d i sv F tos ccs (z_msg z) p HH Hzcs Hp) as (st & Hpp & Hj & Fp & Fe & Fa & Fg & Fad & Fcs & Fen).
+        exists st. split; [exact Hpp|]. split; [exact Hj|].
+        apply (parsed_as_intro d i m st sv F tos ccs); try assumption.
+        all: try (rewrite Eem; exact Fe). all: try (rewrite Eat; exact Fa).
+        -- rewrite Epm. exact Fp.
+        -- rewrite Fen. unfold expected_enc. now rewrite Epm, Eem, Eat.
 Qed.
 
 End Main.
